@@ -30,9 +30,9 @@ SCHEDULE = {
 }
 # C19 is about memory errors: weight the sanitizer builds more
 SCHEDULE_C19 = {
-    "quick": [("exc.plain", "P", 4000), ("exit.plain", "P", 2000), ("exc.asan", "P", 1400), ("exit.asan", "P", 700), ("exc.asan", "GEN", 300), ("exc.valgrind", "P", 48)],
+    "quick": [("exc.plain", "P", 4000), ("exit.plain", "P", 2000), ("exc.asan", "P", 1400), ("exit.asan", "P", 700), ("exc.asan", "GEN", 300), ("exc.asan", "C10", 400), ("exc.valgrind", "P", 48)],
     "thorough": [("exc.plain", "P", 250000), ("exit.plain", "P", 120000), ("exc.plain", "GEN", 60000), ("exc.asan", "P", 60000), ("exit.asan", "P", 30000),
-                 ("exc.asan", "GEN", 20000), ("exc.asan", "C11", 10000), ("exc.asan", "C17", 10000), ("exc.valgrind", "P", 1200), ("exc.valgrind", "GEN", 400)],
+                 ("exc.asan", "GEN", 20000), ("exc.asan", "C10", 20000), ("exc.asan", "C11", 10000), ("exc.asan", "C17", 10000), ("exc.valgrind", "P", 1200), ("exc.valgrind", "GEN", 400)],
 }
 CHUNK = {"plain": 100, "asan": 20, "valgrind": 1}
 VALGRIND = ["valgrind", "-q", "--error-exitcode=78", "--exit-on-first-error=yes", "--leak-check=full", "--errors-for-leak-kinds=definite", "--num-callers=12"]
